@@ -20,7 +20,7 @@ import (
 func init() {
 	register(&property{
 		ID:          "C14",
-		Explanation: "Static decision of structural conditions behind the protocol matchers' verdicts: (R1) filter liveness: every configured (JSON) field of every ConnMatcher is read by code reachable from its Match, or by Provision/Validate; (R2) the wire constants and byte strings the matchers compare against equal an independent table written from the protocol specifications (/verif/specs/wire_constants.json), including the version/record-type byte gates; (R3) provision completeness: every unexported field a matcher reads at match time is assigned during provisioning; (R4) address-family hygiene: a netip.Addr tested with Prefix.Contains comes from a textual parse, from AddrFrom4, or has been Unmap()ped (an IPv4-mapped IPv6 address never matches an IPv4 prefix); (R5) the DNS matcher's allow/deny decision, path-evaluated over rule presence, per-question rule hits and the two flags, equals the documented table.",
+		Explanation: "Static decision of structural conditions behind the protocol matchers' verdicts: (R1) filter liveness: every configured (JSON) field of every ConnMatcher is read by code reachable from its Match, or by Provision/Validate; (R2) the wire constants and byte strings the matchers compare against equal an independent table written from the protocol specifications (/verif/specs/wire_constants.json), including the version/record-type byte gates; (R3) provision completeness: every unexported field a matcher reads at match time is assigned during provisioning; (R4) address-family hygiene: a netip.Addr tested with Prefix.Contains comes from a textual parse, from AddrFrom4, or has been Unmap()ped (an IPv4-mapped IPv6 address never matches an IPv4 prefix); (R5) the DNS matcher's allow/deny decision, path-evaluated over rule presence, per-question rule hits and the two flags, equals the documented table. Added: (R6) the field predicates of the RDP connection request (TPKT, X.224, negotiation request, correlation info) are evaluated concretely over value tables hitting every clause and boundary and must reject exactly what the reference predicates written from MS-RDPBCGR / RFC 1006 reject; (R7) the clock matcher compares the wall clock obtained by t.In(location) at the connection instant, nothing cached.",
 		NotDecided:  "The verdict function of each matcher against a reference predicate over all messages and filter configurations (value-level: field validation arithmetic, regexps, time windows).",
 		Run:         runC14,
 	})
